@@ -8,6 +8,7 @@ import (
 	"go/constant"
 	"go/token"
 	"go/types"
+	"os"
 	"sort"
 	"strings"
 
@@ -87,8 +88,15 @@ func (c *Ctx) outcomes(fn *ssa.Function) []outcome {
 				}
 			}
 			for _, val := range []bool{true, false} {
-				next = append(next, outcome{Val: ssa.NewConst(constant.MakeBool(val), types.Typ[types.Bool]), At: o.At,
-					Guards: dedupLits(append(append([]Lit{}, o.Guards...), literals(f, val)...)), Via: o.Via})
+				// `a() || b()`: true because of a, or because of b after a said no - one outcome per way
+				alts := formulaDNF(f, val, 0)
+				if len(alts) == 0 || len(alts) > 8 {
+					alts = [][]Lit{literals(f, val)}
+				}
+				for _, alt := range alts {
+					next = append(next, outcome{Val: ssa.NewConst(constant.MakeBool(val), types.Typ[types.Bool]), At: o.At,
+						Guards: dedupLits(append(append([]Lit{}, o.Guards...), alt...)), Via: o.Via})
+				}
 			}
 		}
 		out = next
@@ -676,6 +684,13 @@ func (c *Ctx) ruleIgnoreSetAdd() {
 					}
 					f := deref(fa.X.Type()).Underlying().(*types.Struct).Field(fa.Field).Name()
 					where := P.Pos(x.Pos())
+					// the one-time initialisation of the set (under `!s.Initialized`, in Add itself, in a helper, or
+					// at the helper's call) is not part of the per-marker bookkeeping
+					if hasLit(P.GuardsWithin(x, add), func(l Lit) bool {
+						return l.Kind == "cond" && !l.Pos && l.Val != nil && isFieldOf(P, l.Val, IS, "Initialized")
+					}) {
+						return
+					}
 					switch f {
 					case "MinPos":
 						okV := isFieldOf(P, x.Val, "util.IgnoreMarker", "StartPos") || strings.Contains(P.Desc(x.Val), "GetStartPos")
@@ -762,6 +777,38 @@ func (c *Ctx) ruleIgnoreSetAdd() {
 			okInit = true
 		}
 	})
+	if !okInit {
+		// any other way of getting there: Initialized = true is stored by the method or a helper it calls, under no
+		// condition but `!s.Initialized` itself
+		for _, f := range P.StaticClosure(mfn) {
+			allInstrs(f, func(b *ssa.BasicBlock, ins ssa.Instruction) {
+				st, ok := ins.(*ssa.Store)
+				if !ok {
+					return
+				}
+				fa, ok := st.Addr.(*ssa.FieldAddr)
+				if !ok || typeStr(deref(fa.X.Type())) != IS || deref(fa.X.Type()).Underlying().(*types.Struct).Field(fa.Field).Name() != "Initialized" {
+					return
+				}
+				if cv, isC := constBool(st.Val); !isC || !cv {
+					return
+				}
+				only := true
+				for _, l := range P.GuardsWithin(st, mfn) {
+					if l.Kind == "cond" && !l.Pos && l.Val != nil && isFieldOf(P, l.Val, IS, "Initialized") {
+						continue
+					}
+					if nilCheck(l) {
+						continue
+					}
+					only = false
+				}
+				if only {
+					okInit = true
+				}
+			})
+		}
+	}
 	c.check(okMod && okInit, "IGNORESET/MODULE", FuncName(mfn), P.Pos(mfn.Pos()), "appends all given tokens and initialises the set", "AddModuleIgnore does not unconditionally append every token and mark the set initialised (Contains returns false for uninitialised sets)")
 }
 
@@ -831,6 +878,20 @@ func (c *Ctx) ruleHierarchy() {
 		}
 	})
 	sort.Slice(ys, func(i, j int) bool { return ys[i].pos < ys[j].pos })
+	if len(ys) == 3 {
+		// the two cases may be written in either order: put the yields into the order ALL, code, list element
+		codeD := P.Desc(fn.Params[0])
+		rank := func(a string) int {
+			switch {
+			case a == `const("ALL")`:
+				return 0
+			case a == codeD:
+				return 1
+			}
+			return 2
+		}
+		sort.SliceStable(ys, func(i, j int) bool { return rank(ys[i].arg) < rank(ys[j].arg) })
+	}
 	okShape := len(ys) == 3
 	var why string
 	if okShape {
@@ -858,7 +919,7 @@ func (c *Ctx) ruleHierarchy() {
 		if okShape && !(ys[1].arg == code && unknown(ys[1].guards)) {
 			okShape, why = false, "unknown codes do not yield the code itself after \"ALL\""
 		}
-		if okShape && !(strings.HasPrefix(ys[2].arg, "elem(lookup(global(codes.codeToCheckList); ") && known(ys[2].guards)) {
+		if okShape && !((strings.HasPrefix(ys[2].arg, "elem(lookup(global(codes.codeToCheckList); ") || strings.HasPrefix(ys[2].arg, "elem(extract0(lookup(global(codes.codeToCheckList); ")) && known(ys[2].guards)) {
 			okShape, why = false, "known codes do not yield every element of codeToCheckList[code]: "+short(ys[2].arg)
 		}
 	} else if len(ysRaw) == 1 {
@@ -890,6 +951,25 @@ func (c *Ctx) ruleHierarchy() {
 		return
 	}
 	var catOK, codeOK bool
+	// the category table: the package-level CodesByCategory, or a parameter of the builder that init passes it as
+	tableBases := []string{"global(codes.CodesByCategory)"}
+	allInstrs(initFn, func(b *ssa.BasicBlock, ins ssa.Instruction) {
+		if call, ok := ins.(*ssa.Call); ok && call.Call.StaticCallee() == builder {
+			for i, a := range call.Call.Args {
+				if strings.Contains(P.Desc(a), "global(codes.CodesByCategory)") && i < len(builder.Params) {
+					tableBases = append(tableBases, P.Desc(builder.Params[i]))
+				}
+			}
+		}
+	})
+	isCatKey := func(d string) bool {
+		for _, tb := range tableBases {
+			if strings.HasPrefix(d, "rangekey("+tb) {
+				return true
+			}
+		}
+		return false
+	}
 	allInstrs(builder, func(b *ssa.BasicBlock, ins ssa.Instruction) {
 		mu, ok := ins.(*ssa.MapUpdate)
 		if !ok {
@@ -897,15 +977,18 @@ func (c *Ctx) ruleHierarchy() {
 		}
 		elems := c.sliceLitDescs(mu.Value)
 		kd := P.Desc(mu.Key)
+		if os.Getenv("GGV_DEBUG_HIER") != "" {
+			fmt.Println("HIER kd=", kd, "elems=", elems)
+		}
 		switch len(elems) {
 		case 2:
 			// result[category] = {"ALL", category}
-			if elems[0] == `const("ALL")` && elems[1] == kd && strings.HasPrefix(kd, "rangekey(global(codes.CodesByCategory)") {
+			if elems[0] == `const("ALL")` && elems[1] == kd && isCatKey(kd) {
 				catOK = true
 			}
 		case 3:
 			// result[code.ID] = {"ALL", category, code.ID}
-			if elems[0] == `const("ALL")` && strings.HasPrefix(elems[1], "rangekey(global(codes.CodesByCategory)") && elems[2] == kd && strings.Contains(kd, "codes.Code.ID") {
+			if elems[0] == `const("ALL")` && isCatKey(elems[1]) && elems[2] == kd && strings.Contains(kd, "codes.Code.ID") {
 				codeOK = true
 			}
 		}
@@ -1005,4 +1088,46 @@ func naturalLoops(f *ssa.Function) []natLoop {
 		out = append(out, lp)
 	}
 	return out
+}
+
+// formulaDNF: the ways formula f takes the value val, as conjunctions of literals; the alternatives of an `||`
+// (resp. of a false `&&`) are made exclusive in evaluation order: the i-th one includes the negation of the
+// earlier ones.
+func formulaDNF(f *formula, val bool, depth int) [][]Lit {
+	if depth > 4 {
+		return [][]Lit{literals(f, val)}
+	}
+	switch f.op {
+	case "not":
+		return formulaDNF(f.sub[0], !val, depth+1)
+	case "or", "and":
+		splits := (f.op == "or") == val
+		if !splits {
+			// conjunction of the parts: the product of their ways
+			out := [][]Lit{nil}
+			for _, s := range f.sub {
+				var next [][]Lit
+				for _, pre := range out {
+					for _, w := range formulaDNF(s, val, depth+1) {
+						next = append(next, append(append([]Lit{}, pre...), w...))
+					}
+				}
+				out = next
+				if len(out) > 16 {
+					return [][]Lit{literals(f, val)}
+				}
+			}
+			return out
+		}
+		var out [][]Lit
+		var earlier []Lit // the earlier parts took the other value
+		for _, s := range f.sub {
+			for _, w := range formulaDNF(s, val, depth+1) {
+				out = append(out, append(append([]Lit{}, earlier...), w...))
+			}
+			earlier = append(earlier, literals(s, !val)...)
+		}
+		return out
+	}
+	return [][]Lit{literals(f, val)}
 }
